@@ -165,6 +165,7 @@ def write_sites():
     for rel, q, fn in _functions():
         fresh_l = _fresh_locals(fn)
         nested = {n.name for n in _own_nodes(fn) if isinstance(n, (ast.FunctionDef, ast.AsyncFunctionDef))}
+        globs = {nm for n in _own_nodes(fn) if isinstance(n, ast.Global) for nm in n.names}
         for n in _own_nodes(fn):
             targets = []
             if isinstance(n, ast.Assign):
@@ -175,6 +176,8 @@ def write_sites():
                 targets = n.targets
             for t in targets:
                 for sub in ([t] if not isinstance(t, (ast.Tuple, ast.List)) else t.elts):
+                    if isinstance(sub, ast.Name) and sub.id in globs:
+                        sites.add((rel, q, "global-store", sub.id, "="))  # rebinding a module-level name: process-global state
                     if isinstance(sub, ast.Attribute):
                         r = _root(sub)
                         if r in fresh_l or r in nested:
@@ -272,6 +275,18 @@ def scan_ownership():
     glob = sorted({table[tuple(s)] for s in cur if tuple(s) in table and table[tuple(s)].startswith("process-global")})
     allowed_globals = {"process-global:signature-cache", "process-global:registry", "process-global:thread-local-loop"}
     obs.append(_ob("C16|O1/process-global-state-is-only-the-three-known-caches", set(glob) <= allowed_globals, str(glob)))
+    # O2: the one process-global that is per-thread by construction must stay a threading.local
+    tl_ok = False
+    try:
+        tree = ast.parse(open(os.path.join(REPO, "statemachine", "utils.py")).read())
+        for st in tree.body:
+            if (isinstance(st, ast.Assign) and len(st.targets) == 1 and isinstance(st.targets[0], ast.Name)
+                    and st.targets[0].id == "_cached_loop" and isinstance(st.value, ast.Call)
+                    and _attr_chain(st.value.func)[-2:] in (["threading", "local"], ["local"])):
+                tl_ok = True
+    except OSError:
+        pass
+    obs.append(_ob("C16|O2/the-event-loop-cached-for-synchronous-callers-is-per-thread(threading.local)", tl_ok, "statemachine/utils.py:_cached_loop"))
     per_instance = [s for s in cur if tuple(s) in table and table[tuple(s)] == "instance-owned"]
     obs.append(_ob("C16|O1/instance-operations-write-instance-owned-state", len(per_instance) > 0, f"{len(per_instance)} sites"))
     return obs
